@@ -19,6 +19,25 @@ func nameSpaceEvaluation(
 
 	frame, parentClass, class := base.SeparateNameSpaces(t.ToString())
 
+	// Inner::K written inside module Outer means Outer::Inner::K when Outer
+	// (or a namespace around it) defines Inner: the first segment is looked
+	// up lexically, like a bare class name
+	firstSegment := base.SplitNameSpace(t.ToString())[0]
+
+	lexicalFrame, isLexical := base.LexicalFrameOf(ctx.GetFrame(), firstSegment)
+	if isLexical && lexicalFrame != "" {
+		switch frame {
+		case "":
+			switch parentClass {
+			case firstSegment:
+				frame = lexicalFrame
+			}
+
+		default:
+			frame = lexicalFrame + "::" + frame
+		}
+	}
+
 	t = base.MakeIdentifier(class)
 
 	switch {
